@@ -12,7 +12,7 @@ import orbits
 ID = "C07"
 LEAN_TARGETS = ["PV.Props.C07"]
 # further files of property theorems (all are obligations): convergence / root-closeness stretch theorems
-EXTRA_PROPS = ['PV.Props.C04Conv']
+EXTRA_PROPS = ['PV.Props.C04Conv', 'PV.Props.C07Bound']
 # T-C tie (DESIGN 2.3): kernels traced from the current source are proved equal to the model over the reals
 EQUIV = {'PV.Equiv.Geoloc': ['qrotate_eq', 'qrotate_shared_axis_eq', 'geodetic_lat_p1', 'geodetic_lat_p1_c1', 'geodetic_lat_p2', 'geodetic_lat_p2_c2', 'geodLoop_succ', 'subpoint_eq', 'viewVector_eq_viewOfNadir', 'vectors_eq', 'compute_pixels_eq'], 'PV.Equiv.Look': ['lonlatalt_geoloc_p1', 'lonlatalt_geoloc_p1_c1', 'lonlatalt_geoloc_p2', 'lonlatalt_geoloc_p2_c2']}
 RULE = ("orbit states from the repo's TLEs and the near-earth generator (also explicit pos/vel pairs) x pixel times x scan angles "
